@@ -149,6 +149,16 @@ func (g *Gen) RandomChange() Change {
 	return Change(1 + g.rng.Intn(15))
 }
 
+// EvolveBounded is Evolve with a random change that keeps the table size within
+// [1, maxLen]: at maxLen (or above) nothing is added and a member is removed.
+func (g *Gen) EvolveBounded(t gpbft.PowerEntries, maxLen int) gpbft.PowerEntries {
+	ch := g.RandomChange()
+	if len(t) >= maxLen {
+		ch = (ch &^ ChangeAdd) | ChangeRemove
+	}
+	return g.Evolve(t, ch)
+}
+
 // Evolve returns a new canonical table obtained from t by the requested kinds of
 // change (t is not modified). The result is never empty and, for ch != 0,
 // differs from t.
@@ -356,12 +366,12 @@ func (g *Gen) Successor(c *Chain, next gpbft.PowerEntries) *certs.FinalityCertif
 }
 
 // Extend appends n valid certificates; each changes the table with
-// probability changeProb (kinds drawn by RandomChange).
+// probability changeProb (EvolveBounded, at most 12 members).
 func (g *Gen) Extend(c *Chain, n int, changeProb float64) {
 	for ; n > 0; n-- {
 		next := c.HeadTable()
 		if g.rng.Float64() < changeProb {
-			next = g.Evolve(next, g.RandomChange())
+			next = g.EvolveBounded(next, 12)
 		}
 		c.Append(g.Successor(c, next), next)
 	}
